@@ -429,7 +429,21 @@ func ruleR02bCompiler(c *Ctx) {
 	okReg := true
 	var trail []string
 	nEm := 0
+	emitsTakeAll := map[*ssa.Function]bool{}
+	for _, e := range opEmissions(c) {
+		if e.isOK && e.op == takeAll {
+			emitsTakeAll[e.fn] = true
+		}
+	}
 	pr := &PathRule{
+		MaxDepth: 2,
+		// an emit helper of the visitor (`takeAllWithZeroOverdraft`) is stepped through
+		Inline: func(call ssa.CallInstruction) []*ssa.Function {
+			if g := staticCallee(call); g != nil && g != vs && len(g.Blocks) > 0 && emitsTakeAll[g] && fnPkgPath(origin(g)) == pkgCompiler {
+				return []*ssa.Function{g}
+			}
+			return nil
+		},
 		Step: func(pc *PathCtx, s uint64, ins ssa.Instruction) uint64 {
 			for _, e := range opEmissions(c) {
 				if e.ins == ins && e.isOK && e.op == takeAll {
@@ -440,15 +454,18 @@ func ruleR02bCompiler(c *Ctx) {
 			if mu, ok := ins.(*ssa.MapUpdate); ok && mu.Map == ssa.Value(needed) {
 				// key: *accAddr with accAddr the address result of a VisitExpr call
 				if u, ok := mu.Key.(*ssa.UnOp); ok && u.Op == token.MUL {
-					if ex, ok := u.X.(*ssa.Extract); ok && ex.Index == 1 {
-						return s &^ 1
+					// the address result of a visit (VisitExpr: second result; a typed-visit helper: first result)
+					if ex, ok := u.X.(*ssa.Extract); ok {
+						if pt, ok := ex.Type().(*types.Pointer); ok && isNamed(pt.Elem(), pkgMachine, "Address") {
+							return s &^ 1
+						}
 					}
 				}
 			}
 			return s
 		},
 		Exit: func(pc *PathCtx, s uint64, ins ssa.Instruction) {
-			if ret, ok := ins.(*ssa.Return); ok && len(ret.Results) == 4 && isNilConst(ret.Results[3]) && s&1 != 0 {
+			if ret, ok := ins.(*ssa.Return); ok && pc.Fn() == vs && len(ret.Results) == 4 && isNilConst(ret.Results[3]) && s&1 != 0 {
 				okReg = false
 				trail = pc.Trail()
 			}
